@@ -168,6 +168,11 @@ Definition worker_free (s : rst) : bool :=
 Definition is_none {A} (o : option A) : bool := match o with None => true | Some _ => false end.
 Definition is_nil {A} (l : list A) : bool := match l with [] => true | _ => false end.
 
+(* resettable_keystore.go:666-668: a failed marker Put is only logged and the swap and
+   the teardown of the old slot go on.  Repairing the code (abort the swap instead)
+   is the one-line change [marker_fail_aborts := true]. *)
+Definition marker_fail_aborts : bool := false.
+
 (* the swap of opCleanup; [wrote] = the marker Put succeeded *)
 Definition flip (s : rst) (wrote : bool) : rst :=
   let a := negb (r_active s) in
@@ -355,7 +360,11 @@ Definition rstep (pb : nat) (s : rst) (e : revent) : option rst :=
       | _ => None
       end
   | EFlip => match r_ph s with PClean1 => Some (flip s true) | _ => None end
-  | EFlipFail => match r_ph s with PClean1 => Some (flip s false) | _ => None end
+  | EFlipFail =>
+      match r_ph s with
+      | PClean1 => Some (if marker_fail_aborts then upd_ph s PTearing else flip s false)
+      | _ => None
+      end
   | EMarkSync =>
       match r_ph s with
       | PClean2 => Some (upd_ph (upd_j s (r_j s) (length (r_j s))) PTearing)
